@@ -173,7 +173,8 @@ static const int KJ[7] = { 10, 30, 52, 53, 60, 80, 200 };
 #define T_MISC 24
 #define T_SCALE (41 * 2 * 2)
 #define T_NEQ (7 * 3 * 3 * 3)
-long tfam_count (void) { return T_NEAR + T_KM + T_BEALE + T_DEGEN + T_MISC + T_SCALE + T_NEQ; }
+#define T_TINY (4 * 2 * 3 * 2 + 4 * 2)
+long tfam_count (void) { return T_NEAR + T_KM + T_BEALE + T_DEGEN + T_MISC + T_SCALE + T_NEQ + T_TINY; }
 RefLP *tfam_decode (long idx, char *label, size_t ll)
 {
 	RefLP *L = NULL;
@@ -240,6 +241,33 @@ RefLP *tfam_decode (long idx, char *label, size_t ll)
 		/* two nearly dependent equalities / ranged rows:  x + y (=|in) 1 ;  4x + 4y (=|in) 4 + delta, delta in {0, +2^-j, -2^-j}:
 		 * consistent only for delta = 0 (or inside the range), inconsistent by a margin far below double precision otherwise */
 		idx -= T_MISC + T_SCALE;
+		if (idx >= T_NEQ) {
+			/* one coefficient far below the floating-point tolerances (1e-9 dual, 1e-11 pivot ...) next to ordinary data:
+			 * min x + c y, x + a y <= 10, 1 <= x <= 4, y >= 0 with c = +-10^-k: the sign of c decides between optimum 1,
+			 * optimum 1 - 9 * 10^-k and unbounded;  and min x - y with a = 10^-k (optimum 1 - 9 * 10^k) */
+			idx -= T_NEQ;
+			static const int KT[4] = { 10, 12, 16, 30 };
+			static const char *bn[2] = { "1:4", "0:inf" }, *o0[2] = { "1", "0" }, *r0[2] = { "1", "0" };
+			int mx, k;
+			if (idx < 48) {
+				int a = (int) (idx % 3), cs = (int) ((idx / 3) % 2); k = KT[(idx / 6) % 4]; mx = (int) (idx / 24);
+				L = mk (mx ? REF_MAX : REF_MIN, 2, o0, bn);
+				addrow (L, 'L', "10", NULL, r0);
+				mpq_set_ui (L->obj[1], 1, 1); mpz_ui_pow_ui (mpq_denref (L->obj[1]), 10, (unsigned) k); mpq_set_si (t, cs ? 1 : -1, 1); mpq_mul (L->obj[1], L->obj[1], t); mpq_canonicalize (L->obj[1]);
+				mpq_set_si (REF_A (L, 0, 1), a == 0 ? 1 : a == 1 ? -1 : 0, 1);
+				snprintf (label, ll, "tiny cost %s10^-%d a=%d %s", cs ? "+" : "-", k, a == 0 ? 1 : a == 1 ? -1 : 0, mx ? "max" : "min");
+			} else {
+				idx -= 48; k = KT[idx % 4]; mx = (int) (idx / 4);
+				L = mk (mx ? REF_MAX : REF_MIN, 2, o0, bn);
+				addrow (L, 'L', "10", NULL, r0);
+				mpq_set_si (L->obj[1], -1, 1);
+				mpq_set_ui (REF_A (L, 0, 1), 1, 1); mpz_ui_pow_ui (mpq_denref (REF_A (L, 0, 1)), 10, (unsigned) k); mpq_set_ui (t, 1, 1); mpq_mul (REF_A (L, 0, 1), REF_A (L, 0, 1), t); mpq_canonicalize (REF_A (L, 0, 1));
+				snprintf (label, ll, "tiny matrix entry 10^-%d %s", k, mx ? "max" : "min");
+			}
+			if (mx) { mpq_neg (L->obj[0], L->obj[0]); mpq_neg (L->obj[1], L->obj[1]); }
+			mpq_clear (e); mpq_clear (d); mpq_clear (t);
+			return L;
+		}
 		int o = (int) (idx % 3), kind = (int) ((idx / 3) % 3), sg = (int) ((idx / 9) % 3), j = KJ[idx / 27];
 		static const char *objs[3][2] = { { "1", "2" }, { "-1", "0" }, { "0", "0" } };
 		static const char *c11[2] = { "1", "1" }, *c44[2] = { "4", "4" };
